@@ -68,7 +68,7 @@ func runBin(bin string, args []string, env []string, timeout time.Duration) Res 
 	}
 	e := []string{"PATH=/usr/bin:/bin", "HOME=/nonexistent", "LANG=C"}
 	e = append(e, env...)
-	return Run(Cmd{Dir: filepath.Dir(bin), Env: e, Argv: append([]string{bin}, args...), Timeout: timeout})
+	return Run(Cmd{Dir: filepath.Dir(bin), Env: e, Argv: append([]string{bin}, args...), Timeout: timeout, FileIO: true})
 }
 
 var argvSets = [][]string{
